@@ -13,7 +13,7 @@ STUBS = [
     'int -> proxy-aware cast (always yields a proxy; isinstance(x, int) accepts proxies) in expression, utilities, bytecode.parts, model, line_object.data_line',
     'float/Fraction -> exact rational proxy (SymRat) in expression',
     'open(..., "w"/"wb") in engine -> in-memory capture (records every open and write)',
-    'click.echo / print in engine -> no-op / capture',
+    'click.echo / print in engine -> no-op / capture; hex() in engine (error message only) -> constant text',
     'yaml.safe_load in model -> deep copy of the shape\'s configuration dictionary with symbolic numeric leaves',
     'process-global state reset per path: LabelScope._global_scope, InstructionLine._INSTRUCTUION_EXTRACTION_PATTERN, '
     'AssemblyFile.load_line_objects default set',
@@ -105,6 +105,7 @@ def install():
     eng.open = _fake_open
     eng.click = _Click
     eng.print = _print
+    eng.hex = lambda x: 'hex'
     model.yaml = _Yaml
     model.json = _Json
     model.click = _Click
